@@ -32,8 +32,10 @@ fn scratch_file(name: &str) -> std::path::PathBuf {
 fn eff_domain_rep(v: &VarRep) -> (bool, f64, f64) {
     let (l, u) = v.eff_bound();
     let integral = v.kind == KIND_BINARY || v.kind == KIND_INTEGER;
-    if v.kind == KIND_BINARY {
-        (integral, l.max(0.0), u.min(1.0))
+    let (l, u) = if v.kind == KIND_BINARY { (l.max(0.0), u.min(1.0)) } else { (l, u) };
+    // the value domain of an integral variable is the set of integers inside the bound
+    if integral {
+        (integral, l.ceil(), u.floor())
     } else {
         (integral, l, u)
     }
@@ -49,7 +51,11 @@ fn eff_domain_msg(v: &v1::DecisionVariable) -> (bool, f64, f64) {
         l = l.max(0.0);
         u = u.min(1.0);
     }
-    (integral, l, u)
+    if integral {
+        (integral, l.ceil(), u.floor())
+    } else {
+        (integral, l, u)
+    }
 }
 
 pub fn check_case(l: &mut Local, case: &Case) {
@@ -176,6 +182,10 @@ fn var_specs() -> Vec<(i32, Option<(f64, f64)>)> {
             v.push((k, b));
         }
     }
+    // fractional bounds on an integer variable: the admissible integers are ceil(l)..floor(u)
+    v.push((KIND_INTEGER, Some((1.5, 7.0))));
+    v.push((KIND_INTEGER, Some((-6.0, -2.5))));
+    v.push((KIND_CONTINUOUS, Some((-6.5, 1.5))));
     v.push((KIND_BINARY, None));
     v.push((KIND_BINARY, Some((0.0, 1.0))));
     v.push((KIND_BINARY, Some((0.0, 0.0))));
@@ -224,6 +234,8 @@ pub fn run(ctx: &Ctx) -> Finish {
         if nv >= 2 {
             f.push((vec![(ids[1], 0.5), (ids[0], 3.0)], 4.0));
             f.push((vec![(ids[1], 1.0)], 0.0));
+            // a coefficient below machine epsilon is still a coefficient: written and read back
+            f.push((vec![(ids[1], 2f64.powi(-60)), (ids[0], 1.0)], 0.0));
         }
         if nv >= 3 {
             f.push((vec![(ids[2], -1.0), (ids[0], 1.0), (ids[1], 2.0)], -2.0));
